@@ -68,7 +68,9 @@ func pickConj(cols int, sides int) conj {
 	}
 	vf.Note("conjunct", []string{"a", "b"}[k.col]+" "+opNames[k.op]+" "+side)
 	// the engine documents MaxInt32/MinInt32 as its +-infinity markers inside Value.Compare*: outside the claim
-	vf.Assume(k.c != 2147483647 && k.c != -2147483648)
+	if !boundaryInts {
+		vf.Assume(k.c != 2147483647 && k.c != -2147483648)
+	}
 	return k
 }
 
@@ -81,7 +83,9 @@ func setup(updateStats bool) *world {
 	db := sysx.Open("vfc06", 32)
 	tm := db.CreateTable("t1", []sysx.ColDef{{"a", types.Integer, index_constants.IndexKindSkipList}, {"b", types.Integer, index_constants.IndexKindInvalid}, {"tag", types.Integer, index_constants.IndexKindInvalid}})
 	w := &world{db: db, a: vf.I32(), b: vf.I32()}
-	vf.Assume(w.a != 2147483647 && w.a != -2147483648 && w.b != 2147483647 && w.b != -2147483648)
+	if !boundaryInts {
+		vf.Assume(w.a != 2147483647 && w.a != -2147483648 && w.b != 2147483647 && w.b != -2147483648)
+	}
 	_, _, ab := db.Auto(sysx.Insert("t1", []string{"a", "b", "tag"}, []types.Value{types.NewInteger(w.a), types.NewInteger(w.b), types.NewInteger(7)}))
 	vf.Assert(!ab, "insert is not aborted")
 	if updateStats {
@@ -134,11 +138,20 @@ func orN() {
 	w.checkSelect(sysx.Or(k1.expr(), k2.expr()), k1.ref(w.a, w.b) || k2.ref(w.a, w.b))
 }
 
-func VF_C06_And1()        { andN(1, 2, 2) }
+func VF_C06_And1() { andN(1, 2, 2) }
+
+// the same with the largest and the smallest integer allowed as stored values and as constants (they double as
+// the engine's +-infinity markers inside Value.Compare*)
+var boundaryInts = false
+
+func VF_C06_And1_Boundary() {
+	boundaryInts = true
+	andN(1, 2, 2)
+}
 func VF_C06_And2_Indexed() { andN(2, 1, 2) }
-func VF_C06_And2()        { andN(2, 2, 2) }
+func VF_C06_And2()         { andN(2, 2, 2) }
 func VF_C06_And3_Indexed() { andN(3, 1, 1) }
-func VF_C06_Or2()         { orN() }
+func VF_C06_Or2()          { orN() }
 
 // constant on the left under OR: kept apart (own scenario signature)
 func VF_C06_Or2_ConstLeft() {
@@ -417,4 +430,9 @@ func VF_C06_UpdateTwoColumns() {
 		}
 	}
 	dmlAudit(db, rows, "after UPDATE SET of two columns")
+}
+
+func VF_C06_And2_Indexed_Boundary() {
+	boundaryInts = true
+	andN(2, 1, 2)
 }
